@@ -75,6 +75,38 @@ def r3_1(repo: Repo) -> RuleResult:
     return rr
 
 
+def _dispatch_arm(first_if: ast.If, key: str, what: str) -> List[ast.stmt]:
+    """Statements an if / elif chain on string constants executes for the orientation `key`: each test
+    `<var> == 'c'` / `<var> != 'c'` / `<var> in (...)` is evaluated for that value, the first true arm is taken,
+    the final else otherwise."""
+    cur: Optional[ast.stmt] = first_if
+    while isinstance(cur, ast.If):
+        t = cur.test
+        truth = None
+        if isinstance(t, ast.Compare) and len(t.ops) == 1:
+            c = t.comparators[0]
+            if isinstance(c, ast.Constant) and isinstance(c.value, str):
+                if isinstance(t.ops[0], ast.Eq):
+                    truth = key == c.value
+                elif isinstance(t.ops[0], ast.NotEq):
+                    truth = key != c.value
+            elif isinstance(c, (ast.Tuple, ast.List, ast.Set)) and all(isinstance(e, ast.Constant) for e in c.elts):
+                vals = [e.value for e in c.elts]
+                if isinstance(t.ops[0], ast.In):
+                    truth = key in vals
+                elif isinstance(t.ops[0], ast.NotIn):
+                    truth = key not in vals
+        if truth is None:
+            raise AnalysisError("R3.2: %s dispatch test `%s` is not a comparison with orientation constants" % (what, norm(t)))
+        if truth:
+            return cur.body
+        if cur.orelse and len(cur.orelse) == 1 and isinstance(cur.orelse[0], ast.If):
+            cur = cur.orelse[0]
+        else:
+            return cur.orelse
+    return []
+
+
 def _init_tables(repo: Repo) -> Dict[str, List[Tuple[bool, str]]]:
     f = repo.func(BASE_FILE, "BaseCooccurrenceVectorizer.__init__")
     out: Dict[str, List[Tuple[bool, str]]] = {}
@@ -82,23 +114,21 @@ def _init_tables(repo: Repo) -> Dict[str, List[Tuple[bool, str]]]:
              and any("_window_reversals" in norm(x) for x in ast.walk(n))]
     if not loops:
         raise AnalysisError("R3.2: orientation expansion loop not found in BaseCooccurrenceVectorizer.__init__")
-    cur = loops[0].body[0]
-    while isinstance(cur, ast.If):
-        t = cur.test
-        if isinstance(t, ast.Compare) and isinstance(t.comparators[0], ast.Constant):
-            key = t.comparators[0].value
-            revs, oris = [], []
-            for s in cur.body:
-                c = s.value if isinstance(s, ast.Expr) else None
-                if isinstance(c, ast.Call) and isinstance(c.func, ast.Attribute):
-                    tgt = norm(c.func.value)
-                    vals = c.args[0].elts if c.func.attr == "extend" and isinstance(c.args[0], (ast.List, ast.Tuple)) else [c.args[0]]
-                    if tgt == "self._window_reversals":
-                        revs += [v.value for v in vals if isinstance(v, ast.Constant)]
-                    if tgt == "self._window_orientations":
-                        oris += [v.value for v in vals if isinstance(v, ast.Constant)]
-            out[key] = list(zip(revs, oris))
-        cur = cur.orelse[0] if cur.orelse and isinstance(cur.orelse[0], ast.If) else None
+    first = loops[0].body[0]
+    if not isinstance(first, ast.If):
+        raise AnalysisError("R3.2: orientation expansion loop does not start with its dispatch")
+    for key in ("directional", "before", "after"):
+        revs, oris = [], []
+        for s in _dispatch_arm(first, key, "orientation expansion"):
+            c = s.value if isinstance(s, ast.Expr) else None
+            if isinstance(c, ast.Call) and isinstance(c.func, ast.Attribute):
+                tgt = norm(c.func.value)
+                vals = c.args[0].elts if c.func.attr == "extend" and isinstance(c.args[0], (ast.List, ast.Tuple)) else [c.args[0]]
+                if tgt == "self._window_reversals":
+                    revs += [v.value for v in vals if isinstance(v, ast.Constant)]
+                if tgt == "self._window_orientations":
+                    oris += [v.value for v in vals if isinstance(v, ast.Constant)]
+        out[key] = list(zip(revs, oris))
     return out
 
 
@@ -120,16 +150,10 @@ def _column_tables(repo: Repo) -> Dict[str, List[str]]:
                 seq.append("+")  # the block counter advances
         return seq
 
-    while isinstance(cur, ast.If):
-        t = cur.test
-        key = t.comparators[0].value if isinstance(t, ast.Compare) and isinstance(t.comparators[0], ast.Constant) else None
-        if key is not None:
-            out[key] = prefixes(cur.body)
-        if cur.orelse and isinstance(cur.orelse[0], ast.If):
-            cur = cur.orelse[0]
-        else:
-            out["<else>"] = prefixes(cur.orelse)
-            cur = None
+    if not isinstance(cur, ast.If):
+        raise AnalysisError("R3.2: column naming loop does not start with its dispatch")
+    for key in ("directional", "before", "after"):
+        out[key] = prefixes(_dispatch_arm(cur, key, "column naming"))
     return out
 
 
@@ -163,8 +187,7 @@ def r3_2(repo: Repo) -> RuleResult:
             rr.bad(f_init, "orientation %r" % key,
                    "expands to (reversal flag, name) %s but window_at_index returns the tokens before the index for reverse=%s: expected %s"
                    % (got, before_flag, want[key]), f_init.node.lineno)
-        ckey = key if key in cols else "<else>"
-        got_c = [p for p in cols.get(ckey, [])]
+        got_c = [p for p in cols.get(key, [])]
         want_c = []
         for _, nm in want[key]:
             want_c += [prefix_of[nm], "+"]
@@ -437,11 +460,75 @@ def r3_7(repo: Repo) -> RuleResult:
     return rr
 
 
-RULES = [r3_1, r3_2, r3_3, r3_4, r3_5, r3_6, r3_7]
+def r3_8(repo: Repo) -> RuleResult:
+    """Kernel functions, window functions, their argument tuples and the radii are per-window lists that must line up
+    with the expanded reversal flags: a 'directional' entry becomes two windows, any other orientation one.  Each
+    expansion loop of __init__ is evaluated for each orientation and its number of appends compared with the number of
+    reversal flags the orientation expands to."""
+    rr = RuleResult("R3.8", "every per-window configuration list expands an orientation to as many entries as it has reversal flags", floor=12)
+    f = repo.func(BASE_FILE, "BaseCooccurrenceVectorizer.__init__")
+    flags = _init_tables(repo)
+
+    def is_orient_test(t: ast.AST) -> bool:
+        return isinstance(t, ast.Compare) and "self.window_orientations[" in norm(t.left) and len(t.ops) == 1
+
+    def count(stmts, key: str, lst: str) -> int:
+        n = 0
+        for st in stmts:
+            if isinstance(st, ast.Expr) and isinstance(st.value, ast.Call) and isinstance(st.value.func, ast.Attribute) \
+                    and st.value.func.attr == "append" and norm(st.value.func.value) == lst:
+                n += 1
+            elif isinstance(st, ast.If):
+                if is_orient_test(st.test):
+                    n += count(_dispatch_arm(st, key, "per-window list"), key, lst)
+                else:
+                    arms = []
+                    cur = st
+                    while isinstance(cur, ast.If):
+                        arms.append(cur.body)
+                        if cur.orelse and len(cur.orelse) == 1 and isinstance(cur.orelse[0], ast.If):
+                            cur = cur.orelse[0]
+                        else:
+                            arms.append(cur.orelse)
+                            cur = None
+                    live = [a for a in arms if not (a and isinstance(a[-1], ast.Raise))]
+                    counts = {count(a, key, lst) for a in live}
+                    if len(counts) > 1:
+                        raise AnalysisError("R3.8: arms of `if %s` append to %s a different number of times" % (short(st.test, 40), lst))
+                    n += counts.pop() if counts else 0
+        return n
+
+    for lp in [n for n in walk_no_nested(f.node) if isinstance(n, ast.For)]:
+        # a per-window expansion loop: `for i, x in enumerate(self.<parameter>)` appending to a private list
+        if not (isinstance(lp.iter, ast.Call) and norm(lp.iter.func) == "enumerate" and lp.iter.args and is_self_attr(lp.iter.args[0])):
+            continue
+        if any("_window_reversals" in norm(x) for x in ast.walk(lp)):
+            continue  # the reference expansion itself (R3.2)
+        lists = {norm(c.func.value) for st in lp.body for c in ast.walk(st)
+                 if isinstance(c, ast.Call) and isinstance(c.func, ast.Attribute) and c.func.attr == "append" and is_self_attr(c.func.value)
+                 and c.func.value.attr.startswith("_")}
+        if not lists:
+            continue
+        if len(lists) != 1:
+            raise AnalysisError("R3.8: expansion loop at line %d appends to %s" % (lp.lineno, sorted(lists)))
+        lst = lists.pop()
+        for key in ("directional", "before", "after"):
+            want = len(flags[key])
+            got = count(lp.body, key, lst)
+            construct = "%s for %r" % (lst, key)
+            if got == want:
+                rr.ok(f, construct, "%d entr%s, as many as reversal flags" % (got, "y" if got == 1 else "ies"), lp.lineno)
+            else:
+                rr.bad(f, construct, "an orientation %r contributes %d entr%s to %s but %d window(s) to the reversal flags: every later "
+                       "window is paired with the wrong kernel / radius / arguments" % (key, got, "y" if got == 1 else "ies", lst, want), lp.lineno)
+    return rr
+
+
+RULES = [r3_1, r3_2, r3_3, r3_4, r3_5, r3_6, r3_7, r3_8]
 CLAIM = (
     "R3.1 precision flow: no absolute timestamp is narrowed to float32 before the time difference is formed; R3.2 the three tables "
     "(orientation -> reversal flags, orientation -> column prefixes, reversal flag -> before/after in window_at_index) agree; R3.3 "
     "positional kernel / window argument packing matches the parameter order of every function in each class's registry; R3.4 "
-    "window slices have non-negative lower bounds (clamp or range proof); R3.5 window_at_index takes exactly window_size neighbours adjacent to the index on the chosen side, nearest first; R3.6 the stored weight and the window total it is divided by both derive from the mix-weighted kernels (backward slices), with a zero-total guard; R3.7 kernel parameters fitted from the data (the mean time gap) are accumulated in an attribute that the same function re-initialises on every path."
+    "window slices have non-negative lower bounds (clamp or range proof); R3.5 window_at_index takes exactly window_size neighbours adjacent to the index on the chosen side, nearest first; R3.6 the stored weight and the window total it is divided by both derive from the mix-weighted kernels (backward slices), with a zero-total guard; R3.7 kernel parameters fitted from the data (the mean time gap) are accumulated in an attribute that the same function re-initialises on every path; R3.8 every per-window configuration list (kernel and window functions, their arguments, radii) expands each orientation to as many entries as it has reversal flags (the dispatch is evaluated per orientation)."
 )
 NOT_DECIDED = "the numerical definition itself: kernel formulas, per-occurrence sums, window normalisation totals, the transpose identity."
